@@ -312,7 +312,7 @@ def run_c07(ctx):
     wd = oc.workdir(ctx, "c07")
     n = min(NPROC, 16)
     cases = gen(ctx, drv, wd, n)
-    per = ctx.pick(25, 400)
+    per = ctx.pick(25, 100)      # thorough: 400 per file meant > 2 h of judging (15 GB of mutants)
     muts = oc.run_shards(drv, lambda i: ["mutate", cases[i], per, 0, 1], n, lambda i: wd / ("mut.%d.txt" % i), ctx.seed, timeout=14400)
     recs, rcs = rebalance_by_case(muts, cases, wd, "mutrec", n)
     for f in muts:
